@@ -234,6 +234,8 @@ pub enum SeedSpec {
     Zero,
     One,
     MinusOne,
+    /// the seed `Uniform(base)` with bit `bit` (0..=250) flipped: seeds that agree in all other bits
+    Related(u64, u8),
 }
 impl SeedSpec {
     pub fn scalar(&self) -> Option<Scalar> {
@@ -243,6 +245,14 @@ impl SeedSpec {
             SeedSpec::Zero => Some(Scalar::ZERO),
             SeedSpec::One => Some(Scalar::ONE),
             SeedSpec::MinusOne => Some(-Scalar::ONE),
+            SeedSpec::Related(base, bit) => {
+                let s = Scalar::random(&mut ChaCha12Rng::seed_from_u64(base ^ 0x5eed));
+                let bit = (bit % 251) as usize;
+                let mut pow = [0u8; 32];
+                pow[bit / 8] = 1 << (bit % 8);
+                let p = Scalar::from_bytes_mod_order(pow);
+                Some(if s.as_bytes()[bit / 8] >> (bit % 8) & 1 == 0 { s + p } else { s - p })
+            },
         }
     }
 
@@ -253,6 +263,7 @@ impl SeedSpec {
             SeedSpec::Zero => "0",
             SeedSpec::One => "1",
             SeedSpec::MinusOne => "-1",
+            SeedSpec::Related(..) => "one-bit-from-another-member's",
         }
     }
 }
@@ -344,11 +355,12 @@ impl<E: Engine> Triple<E> {
         let cfg = spec.cfg;
         let params = E::params(cfg.bits, cfg.cap, cfg.ext).map_err(|e| format!("params: {:?}", e))?;
         let mut bulk = ChaCha12Rng::seed_from_u64(spec.bulk);
-        let mut values = vec![];
-        let mut promises = vec![];
-        let mut blindings = vec![];
-        let mut commitments = vec![];
-        let mut openings = vec![];
+        // exact capacities: a growing vector would release earlier buffers holding raw copies of the values (C20 scans what is freed)
+        let mut values = Vec::with_capacity(cfg.m);
+        let mut promises = Vec::with_capacity(cfg.m);
+        let mut blindings = Vec::with_capacity(cfg.m);
+        let mut commitments = Vec::with_capacity(cfg.m);
+        let mut openings = Vec::with_capacity(cfg.m);
         for j in 0..cfg.m {
             let s = &spec.slots[j % spec.slots.len()];
             let v = s.value(cfg.bits, j);
